@@ -38,6 +38,13 @@ class BuildError(Exception):
     pass
 
 
+HOOK = False  # set by the runner for checks that build /repo with --cfg cgt_verif (C16)
+
+
+def suffix():
+    return "-hook" if HOOK else ""
+
+
 def cargo_build(crate_dir, target, features=None):
     """incremental cargo build of a harness crate against /repo's working tree (path dependencies)"""
     os.makedirs(BUILD, exist_ok=True)
@@ -47,6 +54,8 @@ def cargo_build(crate_dir, target, features=None):
     cmd = ["cargo", "build", "--offline", "--release"]
     e = env()
     e["CARGO_TARGET_DIR"] = os.path.join(BUILD, target)
+    if HOOK:
+        e["RUSTFLAGS"] = "--cfg cgt_verif"
     with open(os.path.join(BUILD, f"{target}.lock"), "w") as lf:
         fcntl.flock(lf, fcntl.LOCK_EX)
         p = subprocess.run(cmd, cwd=crate_dir, env=e, capture_output=True, text=True)
@@ -76,15 +85,19 @@ def build_all():
     os.makedirs(BUILD, exist_ok=True)
     hd, rd = crate_dirs()
     with ThreadPoolExecutor(2) as ex:
-        a = ex.submit(cargo_build, hd, "symx")
-        b = ex.submit(cargo_build, rd, "replay")
+        a = ex.submit(cargo_build, hd, "symx" + suffix())
+        b = ex.submit(cargo_build, rd, "replay" + suffix())
         a.result()
         b.result()
     return time.time() - t0
 
 
-SYMX_BIN = os.path.join(BUILD, "symx/release/symx")
-REPLAY_BIN = os.path.join(BUILD, "replay/release/replay")
+def symx_bin():
+    return os.path.join(BUILD, f"symx{suffix()}/release/symx")
+
+
+def replay_bin():
+    return os.path.join(BUILD, f"replay{suffix()}/release/replay")
 
 
 def workdir(tag):
@@ -108,7 +121,7 @@ def run_symx(prop, skeletons, tag, chunk=8, timeout_s=3600, extra_env=None):
         with open(inp, "w") as f:
             for s in chunks[i]:
                 f.write(json.dumps(s) + "\n")
-        p = subprocess.run([SYMX_BIN, "run", prop, inp, out], env=e, capture_output=True, text=True, timeout=timeout_s)
+        p = subprocess.run([symx_bin(), "run", prop, inp, out], env=e, capture_output=True, text=True, timeout=timeout_s)
         return i, p.returncode, p.stderr[-2000:]
 
     fails = []
@@ -146,7 +159,7 @@ def run_replay(prop, records, tag):
     with open(inp, "w") as f:
         for s in records:
             f.write(json.dumps(s) + "\n")
-    p = subprocess.run([REPLAY_BIN, "run", prop, inp, out], env=env(), capture_output=True, text=True, timeout=1800)
+    p = subprocess.run([replay_bin(), "run", prop, inp, out], env=env(), capture_output=True, text=True, timeout=1800)
     res = []
     if os.path.exists(out):
         with open(out) as f:
